@@ -254,10 +254,14 @@ func (e *Env) outcome(idx int, ev string) simcore.CmdOutcome {
 		if e.armedEv == "" {
 			out = e.outcomes[idx]
 		} else if ev == e.armedEv && idx < len(e.used) && !e.used[idx] {
-			// scripted for this event, once: a later command of the core's own (the STOP the watcher
-			// sends to the tasks still RUNNING after a failure) is acknowledged
 			out = e.outcomes[idx]
 			e.used[idx] = true
+		} else {
+			// scripted for one event, once: a command of the core's own (the STOP the watcher sends to
+			// the tasks still RUNNING once the environment is in ERROR) is refused at once with the task
+			// left as it is, so that it neither blocks the command queue nor changes what is observed
+			// after the request, whenever it arrives
+			out = simcore.CmdErrSource
 		}
 	}
 	if (out == simcore.CmdAck || out == simcore.CmdErrSource || out == simcore.CmdErrError) && idx < len(e.TaskIds) && e.TaskIds[idx] != "" {
@@ -309,7 +313,7 @@ func (e *Env) SetOutcomes(oc []simcore.CmdOutcome) {
 
 // SetOutcomesFor scripts the outcome of the next command with event ev (CONFIGURE | START | STOP |
 // RESET) that reaches each task, by position; every other command, and a second one with that event,
-// is acknowledged.  A scripted silence would otherwise also swallow a command the core sends on its
+// is refused at once (error reply, task left in the state it is in) until Finish.  A scripted silence would otherwise also swallow a command the core sends on its
 // own afterwards and block the core's serial command queue for the 90 s response time-out, into the
 // next case of the worker.
 func (e *Env) SetOutcomesFor(ev string, oc []simcore.CmdOutcome) {
